@@ -23,9 +23,9 @@ THEOREMS = [
     "NfcVerif.C18.connect_callback_order",
     "NfcVerif.C18.release_iff_connect_true",
     "NfcVerif.C18.connect_return_table_partial",
+    "NfcVerif.C18.connect_return_table",
     "NfcVerif.C18.connect_systemexit_counterexample",
-    "NfcVerif.C18.connect_listen_error_counterexample",
-    "NfcVerif.C18.connect_ends_after_terminate_partial",
+    "NfcVerif.C18.connect_ends_after_terminate",
     "NfcVerif.C18.connect_total",
     "NfcVerif.C18.sense_first_in_order",
     "NfcVerif.C18.sense_field_off_when_none",
@@ -33,7 +33,7 @@ THEOREMS = [
     "NfcVerif.C18.exchange_no_stale_target",
 ]
 
-PROMPT_BOUND = 24      # events after the first true terminate() answer (theorem connect_ends_after_terminate)
+PROMPT_BOUND = 21      # events after the first true terminate() answer (theorem connect_ends_after_terminate)
 
 FOUND = [  # (token, valid as a Type A answer)
     ("F.4400.-.0.0", True), ("F.4400.-.1.0", True), ("F.0400.-.1.40", True), ("F.000c.1148b2565400.0.0", True),
@@ -255,6 +255,8 @@ def oracle_connect(ck, cw, spec, env_toks, ts, txt, r, w, replay):
     cbs = [t.split(":")[1:] for t in w.log if t.startswith("cb:")]          # [role, kind, code]
     inj = [c for (_, _, c) in w.injected]
     fatal = [c for c in inj if c in ("IOError", "KeyboardInterrupt")]
+    # UnsupportedTargetError raised by a listen_* driver call always ends connect() with False (sense() may ignore it)
+    fatal += [c for (_, site, c) in w.injected if c == "UnsupportedTargetError" and site.startswith("l")]
     # preconditions of the documentation
     if spec.rdwr is not None and spec.rdwr["su"] == 3:
         return "precondition"        # on-startup "must return a list"
@@ -360,7 +362,8 @@ def oracle_connect(ck, cw, spec, env_toks, ts, txt, r, w, replay):
         pass  # reported above
     if fatal and r is False:
         # nothing may happen after the exception
-        pos = min(p for (p, _, c) in w.injected if c in ("IOError", "KeyboardInterrupt"))
+        pos = min(p for (p, site, c) in w.injected if c in ("IOError", "KeyboardInterrupt")
+                  or (c == "UnsupportedTargetError" and site.startswith("l")))
         if len(w.log) != pos:
             ck.fail("activity-after-error", "events %s after the device error" % w.log[pos:], replay)
     # ---- ends promptly once terminate() is true (the predicate stays true)
@@ -548,7 +551,16 @@ def run(ck):
                     verdict = oracle_connect(ck, cw, spec, env, ts, txt, r, w, {"request": req, "impl": line})
                     ck.count("oracle:" + verdict)
                 else:
-                    # default callbacks are invisible; the exceptions that leave connect() are still judged
+                    # default callbacks are invisible; device errors and the exceptions that leave connect() are still judged
+                    fpos = [p for (p, site, c) in w.injected if c in ("IOError", "KeyboardInterrupt")
+                            or (c == "UnsupportedTargetError" and site.startswith("l"))]
+                    if fpos and not txt.startswith("exc "):
+                        if r is not False:
+                            ck.fail("return-not-false-on-error", "connect() returned %s although the device raised %s"
+                                    % (txt, [c for (_, _, c) in w.injected]), {"request": req, "impl": line})
+                        elif len(w.log) != min(fpos):
+                            ck.fail("activity-after-error", "events %s after the device error" % w.log[min(fpos):],
+                                    {"request": req, "impl": line})
                     if txt.startswith("exc ") and not (spec.rdwr is not None and spec.rdwr["su"] == 3) \
                             and not (spec.card is not None and spec.card["kind"] == "x"):
                         oracle_connect(ck, cw, spec, env, ts, txt, r, w, {"request": req, "impl": line})
